@@ -108,6 +108,12 @@ func c10ChildMain() {
 			os.Exit(5)
 		}
 	}
+	if nf := atoi(os.Getenv("VERIFH_C10_NOFILE")); nf > 0 { // descriptor limit (ulimit -n)
+		lim := syscall.Rlimit{Cur: uint64(nf), Max: uint64(nf)}
+		if err := syscall.Setrlimit(syscall.RLIMIT_NOFILE, &lim); err != nil {
+			os.Exit(5)
+		}
+	}
 	switch parts[0] {
 	case "808":
 		opts := []service.Option{service.WithHostPorts(parts[1])}
@@ -130,6 +136,8 @@ func init() {
 	RegisterOp("contain808", func(a []string) string { return c10ContainOp("808", a) })
 	RegisterOp("containatt", func(a []string) string { return c10ContainOp("att", a) })
 	RegisterOp("contain808mem", c10MemOp)
+	RegisterOp("containfd", c10FdOp)
+	RegisterOp("containbuf", c10BufOp)
 }
 
 // ---------------------------------------------------------------- the parent side: child management
@@ -231,6 +239,10 @@ func (c *C10Child) Kill() {
 func c10StartChild(kind, param string) (*C10Child, error) { return c10StartChildLimited(kind, param, 0) }
 
 func c10StartChildLimited(kind, param string, limitMB int) (*C10Child, error) {
+	return c10StartChildLimits(kind, param, limitMB, 0)
+}
+
+func c10StartChildLimits(kind, param string, limitMB, nofile int) (*C10Child, error) {
 	// the binary lives in a cache directory that a concurrent bin/check may prune: re-execute the running image
 	exe := "/proc/self/exe"
 	if _, err := os.Stat(exe); err != nil {
@@ -246,7 +258,7 @@ func c10StartChildLimited(kind, param string, limitMB int) (*C10Child, error) {
 		c := &C10Child{Kind: kind, Param: param, Addr: addr, stderr: &c10LockedBuf{}, done: make(chan struct{})}
 		c.cmd = exec.Command(exe)
 		c.cmd.Env = append(os.Environ(), "VERIFH_C10_CHILD="+kind+","+addr+","+param, "VERIFH_C10_CHILD_CWD="+cwd,
-			"VERIFH_C10_RLIMIT_MB="+strconv.Itoa(limitMB))
+			"VERIFH_C10_RLIMIT_MB="+strconv.Itoa(limitMB), "VERIFH_C10_NOFILE="+strconv.Itoa(nofile))
 		c.cmd.Stderr = c.stderr
 		c.cmd.SysProcAttr = &syscall.SysProcAttr{Pdeathsig: syscall.SIGKILL}
 		if err := c.cmd.Start(); err != nil {
@@ -731,6 +743,112 @@ func c10MemOp(a []string) string {
 		res += vm
 	}
 	if !alive {
+		res += fmt.Sprintf(" death=%q", child.Death())
+	}
+	return res
+}
+
+// c10ServedOp: is a fresh connection to the child accepted and answered (808: heartbeat; att: 0x1211)?
+func c10Served(child *C10Child, kind string, ser uint16, wait time.Duration) bool {
+	c, err := c10Dial(child.Addr)
+	if err != nil {
+		return false
+	}
+	defer c.close(false)
+	bcd := []byte{0x01, 0x39, 0x00, 0x00, byte(ser >> 8), byte(ser)}
+	if kind == "att" {
+		c.c.Write(Frame808(0x1211, false, bcd, ser, Body1211([]byte("served"), 0, 1)))
+	} else {
+		c.c.Write(Frame808(0x0002, false, bcd, ser, nil))
+	}
+	_, _, ok := c.waitFor(func(b []byte) bool { return c10WholeFrames(b, 1) }, wait)
+	return ok
+}
+
+// containfd <808|att> <nofile> <n> <mode>: a FRESH server under a descriptor limit; n connections are opened one
+// after the other, each sends one fatal frame (mode "fatal"), nothing (mode "empty") and is CLOSED by the client;
+// then a new connection must be accepted and answered within 4 s (implementation side only, thorough tier).
+func c10FdOp(a []string) string {
+	if len(a) < 4 {
+		return "bad-args"
+	}
+	kind, nofile, n, mode := a[0], atoi(a[1]), atoi(a[2]), a[3]
+	param := "0"
+	if kind == "att" {
+		param = "1"
+	}
+	child, err := c10StartChildLimits(kind, param, 0, nofile)
+	if err != nil {
+		return "no-child " + err.Error()
+	}
+	defer child.Kill()
+	first := c10Served(child, kind, 1, ContainWaitAnswer)
+	refused := 0
+	for i := 0; i < n && child.Alive(); i++ {
+		c, err := net.DialTimeout("tcp", child.Addr, time.Second)
+		if err != nil {
+			refused++
+			continue
+		}
+		if mode == "fatal" {
+			c.Write(Frame808(0x7777, false, []byte{1, 2, 3, 4, 5, 6}, uint16(i), []byte{1, 2, 3})) // unknown id: fatal on the attachment server
+			time.Sleep(200 * time.Microsecond)
+		}
+		c.Close()
+	}
+	t0 := time.Now()
+	served := false
+	for time.Since(t0) < 6*time.Second && child.Alive() {
+		if c10Served(child, kind, 2, time.Second) {
+			served = true
+			break
+		}
+		time.Sleep(100 * time.Millisecond)
+	}
+	return fmt.Sprintf("ok alive=%d first=%d served=%d after_ms=%d dial_refused=%d", b2i(child.Alive()), b2i(first), b2i(served),
+		time.Since(t0).Milliseconds(), refused)
+}
+
+// containbuf <808|att> <limit MB> <send MB>: a FRESH server under an address-space limit; ONE connection sends
+// bytes the server can only buffer (808: a stream that does not start with 7e; attachment: a chunk header
+// announcing 4 GiB followed by data); then a new connection must still be served.
+func c10BufOp(a []string) string {
+	if len(a) < 3 {
+		return "bad-args"
+	}
+	kind, limit, mb := a[0], atoi(a[1]), atoi(a[2])
+	param := "0"
+	if kind == "att" {
+		param = "1"
+	}
+	child, err := c10StartChildLimited(kind, param, limit)
+	if err != nil {
+		return "no-child " + err.Error()
+	}
+	defer child.Kill()
+	first := c10Served(child, kind, 1, ContainWaitAnswer)
+	h, err := net.DialTimeout("tcp", child.Addr, time.Second)
+	if err != nil {
+		return "no-dial"
+	}
+	if kind == "att" {
+		h.Write(ChunkHead(1, []byte("big"), 0, 0xffffffff))
+	}
+	block := bytes.Repeat([]byte{0x41}, 1<<20)
+	sent := 0
+	for i := 0; i < mb && child.Alive(); i++ {
+		h.SetWriteDeadline(time.Now().Add(5 * time.Second))
+		if _, err := h.Write(block); err != nil {
+			break
+		}
+		sent++
+	}
+	time.Sleep(300 * time.Millisecond)
+	served := child.Alive() && c10Served(child, kind, 2, ContainWaitAnswer)
+	h.Close()
+	time.Sleep(20 * time.Millisecond)
+	res := fmt.Sprintf("ok alive=%d first=%d served=%d sent_mb=%d", b2i(child.Alive()), b2i(first), b2i(served), sent)
+	if !child.Alive() {
 		res += fmt.Sprintf(" death=%q", child.Death())
 	}
 	return res
